@@ -79,7 +79,7 @@ def run(tier, seed):
             pass
     blocksrc = {}
     for c in gs.printed:
-        if len(c["d"]) == 1 and c["sp"]["us"] is False and c["sp"]["lead"] == 0 and c["sp"]["closed"] is False and c["sp"]["ul"] == 5 and c["sp"]["fence"] == 3 and c["sp"]["hr"] == 1 and c["sp"]["bullet"] == "*" and c["sp"]["pipes"] is True:
+        if len(c["d"]) == 1 and c["sp"]["us"] is False and c["sp"]["lead"] == 0 and c["sp"]["closed"] == 0 and c["sp"]["ul"] == 5 and c["sp"]["fence"] == 3 and c["sp"]["hr"] == 1 and c["sp"]["bullet"] == "*" and c["sp"]["pipes"] is True:
             blocksrc[json.dumps(c["d"][0], sort_keys=True)] = c["src"]
     ib = sorted({json.dumps(b, sort_keys=True) for c in indep for b in c["d"]})
     ib = [k for k in ib if k in blocksrc]
